@@ -30,6 +30,21 @@ CLAIMED = {
    note="Trusted: Coq kernel + VM; no axioms. The totality theorems are about the hand-written renderer models; renderers whose model is not yet merged are covered by the exhaustive/random execution only (see the theorem list in evidence). Resource exhaustion (absurd declared heights) and wrongly typed property values are outside the property's domain (DESIGN 13).",
    technique="Coq proof of totality per renderer model over all views + exhaustive small-scope and random execution of every renderer/style under recover(), judged by vm_compute",
    ref="6 (C09)"),
+ "C02": dict(
+   text="Machine-checked proof (Coq 8.16.1, closed under the global context) by invariant over ALL well-formed build histories of a Gallina model of atable.go/row.go/location.go (Model/Core.v) against an independent history spec (Spec/History.v): row list = attach order, row count = number of attaching calls, column count = max over every header so far and every current row size (cells appended after attach included), columns = count+1, rows and cells numbered 1-based; CellAt returns exactly the c-th cell of the r-th row whose own location is (r,c), else no-such-cell for out-of-range or separator, never a panic; Column(n) non-nil iff 0<=n<=count; mutating the AllRows copy changes nothing; plus view_wf used by C09. Tied to the code by replaying every history of 3 ops (full alphabet) and 4 ops (reduced) and random histories to 25 ops against the real table, dumping every observable after EVERY op; Coq compares the dump with the spec and with the model.",
+   note="Trusted: Coq kernel + VM; no axioms. wf_hist: a pre-built row is attached at most once (DESIGN 13.1). Modelled, not verified: Go slices/pointers as values with row handles (Detached/Attached); agreement with the code only on the histories each run executes.",
+   technique="Coq proof of a state invariant and refinement to a history spec by induction over operation sequences + exhaustive small-scope and random differential replay, judged by vm_compute",
+   ref="6 (C02)"),
+ "C08": dict(
+   text="Machine-checked proof (Coq 8.16.1, closed under the global context; for every display-width measure W) over a Gallina model of markdown.go: for every well-formed view rendering never panics, is refused exactly without headers or columns, and on success the output is header line + delimiter line + one line per non-separator row, each with exactly columns+1 unescaped pipes (and no pipe adjacent to a backslash), every delimiter cell has >= 3 dashes and the colon markers of the effective alignment (own, else column 0), every cell trimmed and entity-decoded (strict seven-entity decoder) equals the trimmed text, and no raw pipe, LF, angle bracket, ampersand-not-starting-an-entity or quote from content reaches the output; md_okb (the bit computed on the implementation's bytes) is proved equivalent to that Prop. Tied to the code by rendering enumerated shapes x alignment assignments x a pipe/backslash/entity-hostile alphabet with the real renderer; Coq judges the implementation's bytes with md_okb and compares them with the model's.",
+   note="Trusted: Coq kernel + VM; no axioms. External: go-runewidth display width enters only as the oracle W (padding); html.EscapeString's table is modelled byte-wise and validated per run through byte equality. CR inside cells is outside GFM (documented non-goal); an explicit Left alignment is written like unset (' --- '), as the renderer does.",
+   technique="Coq proof by induction over rows/bytes (escape/decode round trip, pipe counting, delimiter row) for all width oracles + differential correspondence and oracle on the real bytes, judged by vm_compute",
+   ref="6 (C08)"),
+ "C13": dict(
+   text="Machine-checked proof (Coq 8.16.1, closed under the global context) over a Gallina model of RegisterPropertyCallback, the add-time call sites of Row.Add/AddRow/AddHeaders and InvokeRenderCallbacks (Model/Callbacks.v) against a trace spec written from the statement (Spec/CbTrace.v): registration is refused exactly for unsupported owner/target combinations; for every well-formed history and any number k of passes the render log equals k copies of the documented nesting order and the add-time log equals the spec's events; add-time events occur exactly once per matching target (count_occ); every logged callback's property is readable on its target afterwards. c13_once is proved per traversal position only (c13_once_partial; the sum over positions needs NoDup of row identities - stated in the file). Tied to the code by recording callbacks for all 48 owner x time x target registrations on every small table shape, before and after the rows exist, 1-3 passes; Coq compares the implementation's log (render: list; add: multiset) and the read-back properties with the spec and the model.",
+   note="Trusted: Coq kernel + VM; no axioms. Targets are addressed by identity in the model (live-object clause is near by construction there; its content is the harness comparing received pointers with t.Column(n)/AllRows()/CellAt). User callbacks are total and only set the property the test sets (DESIGN 13.3).",
+   technique="Coq proof by induction over histories and passes (model trace = spec trace, counting lemma) + differential check with recording callbacks, judged by vm_compute",
+   ref="6 (C13)"),
 }
 
 def main():
